@@ -31,4 +31,11 @@ def plan(tier, ctx):
     gs = dict(spec); gs['pools'] = [['wsd_.*#malloc', 1, 3, 96]]
     j += fvm.config('C10', 'fair_n5_grow', 'fair.c', 1, steps + 2, 'sc', srcs=src, defines=['NFIB=%d' % n, 'STEPS=%d' % steps, 'QLOG=1'],
                     spec=gs, bounds='5 ready fibers, run-queue arrays start with 2 slots and grow during the run', timeout=900)
+    # wake-ups, not only yields: fibers 1 and 2 hand off to each other by wake-then-block while the main fiber and a worker only yield
+    n = 3
+    steps = 3 * (n + 1) + 2
+    j += fvm.config('C10', 'fair_handoff', 'fair.c', 1, steps + 2, 'sc', srcs=src, defines=['NFIB=%d' % n, 'STEPS=%d' % steps, 'HANDOFF'],
+                    spec=dict(spec), bounds='4 fibers: two hand off by wake-then-block, two only yield; %d scheduling steps' % steps, timeout=900)
+    j += fvm.config('C10', 'fair_saving_queued', 'fair.c', 1, steps + 2, 'sc', srcs=src, defines=['NFIB=%d' % n, 'STEPS=%d' % steps, 'SAVING_QUEUED'],
+                    spec=dict(spec), bounds='4 yielding fibers plus a queued fiber that stays in state SAVING (woken before its switch-out finished); %d yields' % steps, timeout=900)
     return j
